@@ -9,7 +9,8 @@ import copy
 from decimal import Decimal
 from fractions import Fraction
 
-from ..sim import Sim, Oracle
+from ..sim import Sim, Oracle, op
+from ..canon import D
 from ..worlds import aave as A
 from ..ref import aave as RA
 from ..ref.aave import F, fstr
@@ -23,6 +24,26 @@ PHASES = ["initialize", "before_bar", "trigger", "on_bar", "after_bar", "notify"
 CACHES = ("_supplies_amount_cache", "_collaterals_amount_cache", "_borrows_amount_cache", "_supplies_cache", "_borrows_cache")
 READ_VIEWS = A.PROPERTY_VIEWS + A.METHOD_VIEWS + ("get_supply", "get_borrow", "get_max_repay_amount", "get_max_borrow_amount", "get_max_withdraw_amount") + A.SIDE_VIEWS
 SWEEP_VIEWS = A.PROPERTY_VIEWS + A.METHOD_VIEWS
+
+
+@op("strat.scribble_snapshot_prices")
+def _scribble(sim, market, a):
+    """The strategy uses the price row it was handed as scratch space (a what-if: `snapshot.prices[token] /= 2`). What it
+    does to its own copy of the bar's prices is its own business: the markets value positions at the bar's prices."""
+    snap = sim.snapshot
+    if snap is None:
+        return None
+    f = D(a.get("factor", "0.5"))
+
+    def call():
+        done = []
+        for t in a.get("tokens", []):
+            if t in snap.prices.index:
+                snap.prices[t] = snap.prices[t] * f
+                done.append(t)
+        return done
+
+    return call
 
 
 # --------------------------------------------------------------------------------------------------- generation
@@ -126,6 +147,14 @@ def generate(seed: int, tier: str = "quick") -> dict:
             order = ["initialize", "before_bar", "trigger", "on_bar", "after_bar", "notify"]
             program = A.bystander_program(R.sub(seed, "bystander_ops"), world, by, nb) + program
             program = [p for _, p in sorted(enumerate(program), key=lambda e: (e[1]["bar"], order.index(e[1]["phase"]), e[0]))]
+    rs_ = R.sub(seed, "scribble")
+    if nb >= 2 and rs_.random() < 0.08:
+        sb = rs_.randint(0, nb - 1)
+        e = {"bar": sb, "phase": rs_.choice(["before_bar", "on_bar"]), "op": "strat.scribble_snapshot_prices", "m": None,
+             "a": {"tokens": rs_.sample(toks, rs_.randint(1, len(toks))), "factor": rs_.choice(["0.5", "2", "0.9"])}}
+        pos = next((i for i, o in enumerate(program) if (o["bar"], PHASES.index(o["phase"])) >= (sb, PHASES.index(e["phase"]))), len(program))
+        program.insert(pos, e)
+        faults.append({"kind": "strategy_overwrites_the_price_row_it_was_handed"})
     opts = {"sweep": rw.random() < 0.5}
     if R.sub(seed, "deepcopy").random() < 0.12:
         opts["deepcopy_markets"] = True  # the markets that run are deep copies of the configured ones (BacktestManager's way)
